@@ -16,6 +16,8 @@ import LianVerif.Drv.Hoist
 import LianVerif.Drv.Termination
 import LianVerif.Drv.Flatten
 import LianVerif.Drv.WfCheck
+import LianVerif.Drv.Table
+import LianVerif.Drv.BlockView
 
 open Lean LianVerif.Drv
 
@@ -37,6 +39,9 @@ def dispatch (j : Json) : Except String Json := do
   | "termination" => LianVerif.Drv.Termination.handle j
   | "flatten" => LianVerif.Drv.Flatten.handle j
   | "wfcheck" => LianVerif.Drv.WfCheck.handle j
+  | "table" => LianVerif.Drv.Table.handle j
+  | "tablealias" => LianVerif.Drv.Table.handleAlias j
+  | "blockview" => LianVerif.Drv.BlockView.handle j
   | _ => throw s!"unknown model {m}"
 
 partial def loop (hin hout : IO.FS.Stream) : IO Unit := do
